@@ -1307,6 +1307,20 @@ func (in *Interp) assumeVal(st *State, c AV, truth bool) {
 }
 
 func (in *Interp) slice(st *State, x, lo, hi AV) AV {
+	// constant string with constant bounds
+	if str, ok := asString(x); ok {
+		l, h := int64(0), int64(len(str))
+		okl, okh := true, true
+		if lo != nil {
+			l, okl = asInt(lo)
+		}
+		if hi != nil {
+			h, okh = asInt(hi)
+		}
+		if okl && okh && l >= 0 && l <= h && h <= int64(len(str)) {
+			return mkString(str[l:h])
+		}
+	}
 	if r, ok := x.(Ref); ok {
 		if o := st.heap[r.ID]; o != nil && o.Kind == 'a' {
 			x = SliceV{Elems: append([]AV(nil), o.Elems...)}
